@@ -39,3 +39,13 @@ Example c11_debug_velocity :
   debug_quantity [49] [[109]; [107; 103]; [115]; [65]; [75]; [109; 111; 108]; [99; 100]] [1; 0; -1; 0; 0; 0; 0]%Z
   = [49; 32; 109; 94; 49; 32; 115; 94; 45; 49].      (* "1 m^1 s^-1" *)
 Proof. vm_compute. reflexivity. Qed.
+
+(* ---- the source the text model transcribes: QuantityArguments' fmt (value read in the unit, formatted by the storage type with the
+   caller's formatter, one blank, label by style and is_one), Debug's fmt (value, then ' abbr^d' for the non-zero exponents in order),
+   and the three constructors through which unit, style and quantity reach it (Gen/BodySrc.v is regenerated from src/system.rs and
+   src/quantity.rs on every run) ---- *)
+From Coq Require Import String.
+From UomV Require Import Gen.BodySrc Spec.BodyTie.
+Theorem c11_formatting_sources_are_what_the_model_transcribes :
+  forallb body_pinned ["arguments_fmt"%string; "debug_fmt"%string; "format_args"%string; "into_format_args"%string; "arguments_with"%string] = true.
+Proof. vm_compute. reflexivity. Qed.
